@@ -53,7 +53,7 @@ func checkC16(c *Ctx) {
 	// whatever wraps it, e.g. a fold over the proof)
 	rootFns := "CompressPoseidon2"
 	for _, f := range libFuncs(p, vx) {
-		if f.Parent() == nil && f.Name() != "CompressPoseidon2" && f.Signature.Results().Len() == 1 && reachesCallee(f, "CompressPoseidon2") {
+		if f.Parent() == nil && f.Name() != "CompressPoseidon2" && f.Signature.Results().Len() >= 1 && f.Signature.Results().Len() <= 2 && reachesCallee(f, "CompressPoseidon2") {
 			rootFns += "|" + regexp.QuoteMeta(f.Name())
 		}
 	}
